@@ -103,6 +103,7 @@ func (te *TemplateEngine) SetBasePath(path string) {
 func (te *TemplateEngine) LoadTemplate(name, content string) (*Template, error) {
 	te.mutex.Lock()
 	defer te.mutex.Unlock()
+	verifPoint("engine.load.locked")
 
 	template := &Template{
 		Name:          name,
@@ -127,6 +128,7 @@ func (te *TemplateEngine) LoadTemplate(name, content string) (*Template, error) 
 func (te *TemplateEngine) LoadTemplateFromDocument(name string, doc *Document) (*Template, error) {
 	te.mutex.Lock()
 	defer te.mutex.Unlock()
+	verifPoint("engine.load.locked")
 
 	// 从文档中提取模板内容
 	content, err := te.extractTemplateContentFromDocument(doc)
@@ -302,6 +304,7 @@ func (te *TemplateEngine) processBlockOverrides(childTemplate, parentTemplate *T
 	for blockName, childBlock := range childTemplate.DefinedBlocks {
 		if parentBlock, exists := parentTemplate.DefinedBlocks[blockName]; exists {
 			// 标记父模板块被重写
+			verifPoint("engine.override.write")
 			parentBlock.IsOverridden = true
 			parentBlock.Content = childBlock.Content
 		}
@@ -319,6 +322,7 @@ func (te *TemplateEngine) RenderToDocument(templateName string, data *TemplateDa
 	if err != nil {
 		return nil, WrapErrorWithContext("render_to_document", err, templateName)
 	}
+	verifPoint("engine.render.got")
 
 	// 创建新文档
 	var doc *Document
@@ -416,6 +420,7 @@ func (te *TemplateEngine) renderBlocks(content string, template *Template, data 
 			blockContent := matches[2]
 
 			// 检查是否有定义的块
+			verifPoint("engine.block.read")
 			if block, exists := template.DefinedBlocks[blockName]; exists {
 				// 如果块被重写，使用重写的内容，否则使用默认内容
 				if block.IsOverridden {
@@ -1787,6 +1792,7 @@ func (te *TemplateEngine) RenderTemplateToDocument(templateName string, data *Te
 	if err != nil {
 		return nil, WrapErrorWithContext("render_template_to_document", err, templateName)
 	}
+	verifPoint("engine.render.got")
 
 	// 如果有基础文档，克隆它并在其上进行变量替换
 	if template.BaseDoc != nil {
